@@ -115,7 +115,30 @@ class Harness:
                 lambda v, options: f"object {self.lab(v)}\n",
             )
         if k in ("pyvis", "pyvis_custom"):
-            if e.get("rvfunc"):
+            if e.get("rvfunc") and e.get("reenter"):
+                # a label function that renders ANOTHER universe (one that may
+                # share vertices with this one) for the first vertex it is
+                # asked about: user code re-entering the renderer in mid-call
+                state = {"done": False, "n": 0}
+
+                def rv(v, _state=state, _u2=e["reenter"], _at=e.get("reenter_at", 1)):
+                    _state["n"] += 1
+                    if not _state["done"] and _state["n"] >= _at:
+                        _state["done"] = True
+                        eg_pyvis.make_pyvis_net(self.ex.g(_u2))
+                    return str(self.lab(v))
+
+                cb = CB("rvfunc", rv)
+                _reset = cb.reset
+
+                def reset(fault_at=None, fault_type=InjectedFault, _state=state, _reset=_reset):
+                    _state["done"] = False
+                    _state["n"] = 0
+                    _reset(fault_at, fault_type)
+
+                cb.reset = reset
+                cbs["rvfunc"] = cb
+            elif e.get("rvfunc"):
                 cbs["rvfunc"] = CB("rvfunc", lambda v: str(self.lab(v)))
             if e.get("refunc"):
                 cbs["refunc"] = CB("refunc", lambda l: str(self.lab(l)))
@@ -352,6 +375,7 @@ class C13(engine.Property):
         "are enumerated exhaustively (N<=32) or first/last 8 + 16 seeded positions",
     ]
     expected_probes = [
+        "label-callback-re-enters-the-renderer",
         "mutator-cut-short-by-a-user-override-before-the-reads",
         "user-attribute-with-two-leading-underscores",
         "one-shot-iterator-as-attribute-value",
@@ -495,6 +519,11 @@ class C13(engine.Property):
                 op["refunc"] = rng.random() < 0.8
                 if kind == "pyvis" and rng.random() < 0.3:
                     op["netkw"] = True
+                if op["rvfunc"] and len(us) >= 2 and rng.random() < 0.25:
+                    op["reenter"] = rng.choice([u for u in us if u != op["u"]])
+                    op["reenter_at"] = rng.choice([1, 2, 2, 3, 4])
+                    st.stats["probe:label-callback-re-enters-the-renderer"] += 1
+                    st.stats["fault:reentrant-call-from-callback"] += 1
         op = dict(op)
         op.pop("op", None)
         op["kind"] = kind
@@ -586,11 +615,20 @@ class C13(engine.Property):
                 plan = [(k, InjectedFault) for k in pos] + [
                     (k, StopIteration) for k in sorted(set(pos[:3] + pos[-2:]))
                 ]
+                # ... and a few with the exception types library code is most
+                # likely to catch for reasons of its own (a missing attribute,
+                # a missing key, a wrong type)
+                odd_types = [AttributeError, KeyError, TypeError]
+                plan += [
+                    (k, odd_types[(k + i) % 3]) for i, k in enumerate(sorted(set(pos[:2] + pos[-1:])))
+                ]
                 for k, ftype in plan:
                     cbs_k = h.make_callbacks()
                     cbs_k[name].reset(fault_at=k, fault_type=ftype)
                     if ftype is StopIteration:
                         s["fault:callback-raised-StopIteration"] += 1
+                    elif ftype is not InjectedFault:
+                        s["fault:callback-raised-" + ftype.__name__] += 1
                     seams.set_flag(flag)
                     out_k = h.call(cbs_k)
                     seams.set_flag(False)
